@@ -29,7 +29,7 @@ prop( 'C05', [ 'S-STATUS', 'D-VALIDATE', 'W-ATTR', 'T-ALLOWED' ],
 
 prop( 'C12', [ 'T-CLIENT-TYPES', 'P-BUNDLE', 'T-PATHSYNTAX', 'S-COMPLETE' ],
       decides='P-BUNDLE: in connector.issue the keep-collecting condition conjoins the size test with equality of both route_path and '
-              'send_path with the bundle's, every yielded record carries ( index, sender_context ) of its wire request, sender_context is '
+              'send_path with those of the bundle, every yielded record carries ( index, sender_context ) of its wire request, sender_context is '
               'always derived from index, and index advances at most once per operation and after every flushed bundle; T-PATHSYNTAX: every '
               'delimiter format_path emits (@ / [ - ] . 0x) is recognised by parse_path/parse_path_elements/parse_path_component/parse_int; '
               'S-COMPLETE: both harvesting drivers compare issued vs harvested counts before completing; T-CLIENT-TYPES: every client.CIP_TYPES row takes (tag_type, size) from the parser class of its own name and its '
